@@ -17,17 +17,19 @@ import (
 
 func newBig(v int64) *big.Int { return big.NewInt(v) }
 
-var maxInt = BigLit(new(big.Int).Sub(new(big.Int).Lsh(big.NewInt(1), 63), big.NewInt(1)))
+// maxInt bounds lengths and capacities: no Go object exceeds the address space (assumption A2b).
+var maxInt = BigLit(new(big.Int).Lsh(big.NewInt(1), 56))
 
 // State is the symbolic state at a program point.
 type State struct {
 	guard *Term
 	cells map[*ssa.Alloc]*Term
 	heap  map[string]*Term
+	split []*Term // guards of the states merged most recently (case-split hint)
 }
 
 func (s *State) clone() *State {
-	n := &State{guard: s.guard, cells: make(map[*ssa.Alloc]*Term, len(s.cells)), heap: make(map[string]*Term, len(s.heap))}
+	n := &State{guard: s.guard, cells: make(map[*ssa.Alloc]*Term, len(s.cells)), heap: make(map[string]*Term, len(s.heap)), split: s.split}
 	for k, v := range s.cells {
 		n.cells[k] = v
 	}
@@ -95,6 +97,7 @@ type FnExec struct {
 	deferred []*ssa.Defer
 	freeCells map[*ssa.FreeVar]*Term // closure free variables: pointer terms
 	tuples map[ssa.Value][]*Term
+	lemmasUsed map[*Axiom]bool
 }
 
 type mapIterInfo struct {
@@ -105,7 +108,11 @@ type mapIterInfo struct {
 }
 
 func (fx *FnExec) fail(f string, a ...interface{}) {
-	panic(unsupported(fmt.Sprintf("%s: ", fx.fn.Name()) + fmt.Sprintf(f, a...)))
+	n := "spec"
+	if fx.fn != nil {
+		n = fx.fn.Name()
+	}
+	panic(unsupported(fmt.Sprintf("%s: ", n) + fmt.Sprintf(f, a...)))
 }
 
 func (fx *FnExec) pos(p token.Pos) string {
@@ -129,6 +136,14 @@ func (fx *FnExec) oblig(st *State, kind, what string, p token.Pos, goal *Term) {
 	name := base
 	if n := fx.nobl[base]; n > 1 {
 		name = fmt.Sprintf("%s#%d", base, n)
+	}
+	if (kind == "inv-pres" || kind == "ensures") && len(st.split) > 1 && !goal.IsTrue() {
+		// case split along the most recent join: one obligation per merged path
+		for i, g := range st.split {
+			o := &Obligation{Name: fmt.Sprintf("%s/case%d", name, i), Func: fx.fn.String(), Beh: fx.behName, Kind: kind, Pos: fx.pos(p), Guard: And(st.guard, g), Goal: goal}
+			fx.c.AddObl(o)
+		}
+		return
 	}
 	o := &Obligation{Name: name, Func: fx.fn.String(), Beh: fx.behName, Kind: kind, Pos: fx.pos(p), Guard: st.guard, Goal: goal}
 	fx.c.AddObl(o)
@@ -624,6 +639,8 @@ func (fx *FnExec) prepareCFG() {
 type modSet struct {
 	cells map[*ssa.Alloc]bool
 	heaps map[string]Sort
+	full  map[string]bool        // component modified in a way not attributable to a known object
+	sites map[string][]ssa.Value // direct stores: the object / slice / map operand per component
 }
 
 func (fx *FnExec) rootAlloc(v ssa.Value) *ssa.Alloc {
@@ -646,10 +663,42 @@ func (fx *FnExec) rootAlloc(v ssa.Value) *ssa.Alloc {
 }
 
 func (fx *FnExec) loopModSet(li *loopInfo) *modSet {
-	ms := &modSet{cells: map[*ssa.Alloc]bool{}, heaps: map[string]Sort{}}
+	ms := &modSet{cells: map[*ssa.Alloc]bool{}, heaps: map[string]Sort{}, full: map[string]bool{}, sites: map[string][]ssa.Value{}}
 	for b := range li.blocks {
 		for _, ins := range b.Instrs {
-			fx.instrMods(ins, ms)
+			tmp := &modSet{cells: ms.cells, heaps: map[string]Sort{}}
+			fx.instrMods(ins, tmp)
+			var site ssa.Value
+			fresh := false
+			switch x := ins.(type) {
+			case *ssa.Store:
+				switch a := x.Addr.(type) {
+				case *ssa.FieldAddr:
+					site = a.X
+				case *ssa.IndexAddr:
+					if _, ok := a.X.Type().Underlying().(*types.Slice); ok {
+						site = a.X
+					}
+				}
+			case *ssa.MapUpdate:
+				site = x.Map
+			case *ssa.Alloc, *ssa.MakeSlice, *ssa.MakeMap, *ssa.MakeClosure:
+				fresh = true
+			case ssa.CallInstruction:
+				if b, ok := x.Common().Value.(*ssa.Builtin); ok && b.Name() == "append" {
+					fresh = true
+				}
+			}
+			for h, so := range tmp.heaps {
+				ms.heaps[h] = so
+				switch {
+				case h == "alloc" || fresh:
+				case site != nil:
+					ms.sites[h] = append(ms.sites[h], site)
+				default:
+					ms.full[h] = true
+				}
+			}
 		}
 	}
 	return ms
@@ -810,6 +859,9 @@ func (fx *FnExec) mergeStates(ins []*State) *State {
 		guards = append(guards, s.guard)
 	}
 	st := &State{guard: fx.c.Name("g", Or(guards...)), cells: map[*ssa.Alloc]*Term{}, heap: map[string]*Term{}}
+	if len(guards) <= 4 {
+		st.split = guards
+	}
 	// cells present in all predecessors
 	for a := range ins[0].cells {
 		all := true
@@ -929,13 +981,46 @@ func (fx *FnExec) loopHead(li *loopInfo, st *State) {
 		hs = append(hs, h)
 	}
 	sort.Strings(hs)
+	allocHead := fx.heapGet(st, "alloc", SInt)
 	for _, h := range hs {
 		old := fx.heapGet(st, h, ms.heaps[h])
 		nv := fx.c.Fresh("hvh_"+h, ms.heaps[h])
-		st.heap[h] = nv
 		if h == "alloc" {
+			st.heap[h] = nv
 			fx.c.Assume(Implies(st.guard, Ge(nv, old)))
+			continue
 		}
+		// frame: objects that exist at the loop head and are not the target of a
+		// store inside the loop keep their contents
+		if !ms.full[h] && strings.HasPrefix(string(ms.heaps[h]), "(Array Int ") {
+			var bases []*Term
+			ok := true
+			for _, site := range ms.sites[h] {
+				b, fresh, res := fx.loopInvariantRef(st, li, ms, site)
+				if !res {
+					ok = false
+					break
+				}
+				if !fresh {
+					bases = append(bases, b)
+				}
+			}
+			if ok {
+				r := Var("r!f", SInt)
+				conds := []*Term{Lt(r, allocHead)}
+				seen := map[string]bool{}
+				for _, b := range bases {
+					if !seen[b.String()] {
+						seen[b.String()] = true
+						conds = append(conds, Neq(r, b))
+					}
+				}
+				es := ms.heaps[h].elemSort()
+				sel := App("select", es, nv, r)
+				fx.c.Assume(Implies(st.guard, Forall([]*Term{r}, Implies(And(conds...), Eq(sel, App("select", es, old, r))), sel)))
+			}
+		}
+		st.heap[h] = nv
 	}
 	// 3. assume invariant
 	env = fx.specEnvAt(st, li.head)
@@ -947,6 +1032,56 @@ func (fx *FnExec) loopHead(li *loopInfo, st *State) {
 	}
 	// cover: loop head reachable with invariant
 	fx.c.AddObl(&Obligation{Name: fmt.Sprintf("%s/cover:loop%d", fx.prefix, li.ordinal), Func: fx.fn.String(), Beh: fx.behName, Kind: "cover", Guard: st.guard, Goal: False, Cover: true, Pos: fx.pos(li.head.Instrs[0].Pos())})
+}
+
+// loopInvariantRef resolves the object/slice/map operand of a store inside a
+// loop to a term that is invariant across iterations (evaluated in the state at
+// the loop head), or reports that it denotes memory allocated inside the loop.
+func (fx *FnExec) loopInvariantRef(st *State, li *loopInfo, ms *modSet, v ssa.Value) (ref *Term, fresh bool, ok bool) {
+	toRef := func(t *Term) *Term {
+		if t.S == SSlc {
+			return SlcBase(t)
+		}
+		return t
+	}
+	switch x := v.(type) {
+	case *ssa.Parameter:
+		return toRef(fx.vals[x]), false, true
+	case *ssa.Alloc:
+		if x.Heap && li.blocks[x.Block()] {
+			return nil, true, true
+		}
+		if x.Heap {
+			if t, ok := fx.vals[x]; ok {
+				return t, false, true
+			}
+		}
+		return nil, false, false
+	case *ssa.UnOp:
+		if x.Op != token.MUL {
+			return nil, false, false
+		}
+		if a, isA := x.X.(*ssa.Alloc); isA && !a.Heap && !ms.cells[a] {
+			if t, ok := st.cells[a]; ok {
+				return toRef(t), false, true
+			}
+		}
+		return nil, false, false
+	case *ssa.FieldAddr:
+		b, fr, ok := fx.loopInvariantRef(st, li, ms, x.X)
+		if !ok {
+			return nil, false, false
+		}
+		if fr {
+			return nil, true, true
+		}
+		pt := x.X.Type().Underlying().(*types.Pointer)
+		return fx.emb(b, fx.e.structOf(pt.Elem()), x.Field), false, true
+	}
+	if t, ok := fx.vals[v]; ok && !li.blocks[v.(ssa.Instruction).Block()] {
+		return toRef(t), false, true
+	}
+	return nil, false, false
 }
 
 func (fx *FnExec) backEdge(li *loopInfo, st *State, p token.Pos) {
@@ -989,6 +1124,14 @@ func (fx *FnExec) typeInv(v *Term, t types.Type, alloc *Term) *Term {
 			cs = append(cs, fx.typeInv(Sel(si.sels[i], v), u.Field(i).Type(), alloc))
 		}
 		return And(cs...)
+	}
+	return True
+}
+
+// typeInvQ: range facts for a quantified variable of a Go type (no allocation facts).
+func (fx *FnExec) typeInvQ(v *Term, t types.Type) *Term {
+	if lo, hi, ok := intRange(t); ok && t != tInt {
+		return And(Le(lo, v), Le(v, hi))
 	}
 	return True
 }
